@@ -411,11 +411,15 @@ class ExprGen(object):
             return ("fn", "INKEY$", [])
         return self.str(0, nonempty)
 
+    def relop(self):
+        # "=<" and "=>" are legal spellings of <= and >=
+        return self.r.choice(RELOPS + RELOPS + ("=<", "=>"))
+
     def rel(self, depth):
         r = self.r
         if self.strings and r.random() < 0.25:
-            return ("bin", r.choice(RELOPS), self.str(min(depth, 1)), self.str(0))
-        return ("bin", r.choice(RELOPS), self.num_nologic(depth), self.num_nologic(0))
+            return ("bin", self.relop(), self.str(min(depth, 1)), self.str(0))
+        return ("bin", self.relop(), self.num_nologic(depth), self.num_nologic(0))
 
     def num_nologic(self, depth):
         saved = self.logic
